@@ -46,6 +46,10 @@ func checkC07(c *Ctx) {
 	n3 := c.Pick(90, 2000)
 	n2 := c.Pick(200, 5000)
 	depths := map[string]bool{}
+	if os.Getenv("VCHECK_ONLY") == "weakdeep" { // debugging aid
+		c07WeakDeep(c)
+		return
+	}
 	parallelFor(n3, func(i int) { c07Run3(c, i, depths) })
 	parallelFor(n2, func(i int) { c07Run2(c, i, depths) })
 	c07HighRes(c)
@@ -988,10 +992,17 @@ func c07HighRes2(c *Ctx) {
 // box and inside it, so that whatever order the tree is walked in, a deep chain of undecided cubes comes first or last.
 
 type c07Balls3 struct {
-	c  []v3.Vec
-	r  []float64
-	k  float64
-	bb sdf.Box3
+	c    []v3.Vec
+	r    []float64
+	k    float64
+	bb   sdf.Box3
+	snap *atomic.Int64 // evaluations whose scaled value falls below the library's absolute snap epsilon while the unscaled one does not
+}
+
+// c07SnapCrossed: the renderers treat |value| < 1e-12 as zero, so a node that close to the surface in the scaled field only
+// (not in f itself) legitimately moves the few items around it. Counted with a margin of a factor 4 either way.
+func c07SnapCrossed(d, k float64) bool {
+	return k != 1 && math.Abs(d*k) < 4e-12 && math.Abs(d) > 0.25e-12
 }
 
 func (s *c07Balls3) Evaluate(p v3.Vec) float64 {
@@ -999,19 +1010,29 @@ func (s *c07Balls3) Evaluate(p v3.Vec) float64 {
 	for i := range s.c {
 		d = math.Min(d, p.Sub(s.c[i]).Length()-s.r[i])
 	}
+	if s.snap != nil && c07SnapCrossed(d, s.k) {
+		s.snap.Add(1)
+	}
 	return d * s.k
 }
 func (s *c07Balls3) BoundingBox() sdf.Box3 { return s.bb }
 
 type c07Disc2 struct {
-	c  v2.Vec
-	r  float64
-	k  float64
-	bb sdf.Box2
+	c    v2.Vec
+	r    float64
+	k    float64
+	bb   sdf.Box2
+	snap *atomic.Int64
 }
 
-func (s *c07Disc2) Evaluate(p v2.Vec) float64 { return (p.Sub(s.c).Length() - s.r) * s.k }
-func (s *c07Disc2) BoundingBox() sdf.Box2     { return s.bb }
+func (s *c07Disc2) Evaluate(p v2.Vec) float64 {
+	d := p.Sub(s.c).Length() - s.r
+	if s.snap != nil && c07SnapCrossed(d, s.k) {
+		s.snap.Add(1)
+	}
+	return d * s.k
+}
+func (s *c07Disc2) BoundingBox() sdf.Box2 { return s.bb }
 
 func c07WeakDeep(c *Ctx) {
 	type wd struct {
@@ -1027,8 +1048,9 @@ func c07WeakDeep(c *Ctx) {
 		r := c.Rng("weakdeep", i)
 		h := 2.0 / float64(k.cells)
 		bb := sdf.Box3{Min: v3.Vec{X: -1, Y: -1, Z: -1}, Max: v3.Vec{X: 1, Y: 1, Z: 1}}
+		var snap atomic.Int64
 		mk := func(scale float64) *c07Balls3 {
-			s := &c07Balls3{k: scale, bb: bb}
+			s := &c07Balls3{k: scale, bb: bb, snap: &snap}
 			rr := c.Rng("weakdeep-balls", i)
 			for corner := 0; corner < 8; corner++ {
 				// a ball of a few cells, a few cells from a corner of the box (the renderer pads the box by 1 %)
@@ -1059,6 +1081,11 @@ func c07WeakDeep(c *Ctx) {
 		desc := fmt.Sprintf("11 balls of 1..25 cells, one next to each corner of [-1,1]^3 and 3 inside, field f vs f*2^-%d", k.kpow)
 		cs := c07Case{Index: i, Dim: 3, Cells: k.cells, Family: "weak-field-deep-tree", Shape: desc, TrisP: len(a), TrisU: len(b), ScaleK: k.kpow}
 		if m, e := diffTriangles(a, b, 0); m+e > 0 || len(a) != len(b) || len(a) == 0 {
+			if n := snap.Load(); n > 0 && len(a) > 0 && int64(m+e) <= 80*n {
+				// a lattice node lies within 1e-12/scale of the surface: the (at most 8 cubes x 5 triangles, either render) around it may differ
+				c.Count("cases_skipped_scaled_value_crossed_snap_epsilon", 1)
+				return
+			}
 			c.Violate("", fmt.Sprintf("octree-weak-deep cells=%d %s: %d triangles from f, %d from the weaker field (%d only in the first, %d only in the second)", k.cells, desc, len(a), len(b), m, e), cs)
 			return
 		}
@@ -1075,8 +1102,9 @@ func c07WeakDeep(c *Ctx) {
 		bb := sdf.Box2{Min: v2.Vec{X: -1.3, Y: -1.3}, Max: v2.Vec{X: 1.3, Y: 1.3}}
 		ctr := v2.Vec{X: r.R(-0.2, 0.2), Y: r.R(-0.2, 0.2)}
 		rad := r.R(0.8, 1.05)
-		la := collectLines(render.NewMarchingSquaresQuadtree(n), &c07Disc2{ctr, rad, 1, bb})
-		lb := collectLines(render.NewMarchingSquaresQuadtree(n), &c07Disc2{ctr, rad, math.Ldexp(1, -12), bb})
+		var snap atomic.Int64
+		la := collectLines(render.NewMarchingSquaresQuadtree(n), &c07Disc2{ctr, rad, 1, bb, nil})
+		lb := collectLines(render.NewMarchingSquaresQuadtree(n), &c07Disc2{ctr, rad, math.Ldexp(1, -12), bb, &snap})
 		c.Eval(2)
 		desc := fmt.Sprintf("disc r=%.4g at %v in [-1.3,1.3]^2, field f vs f*2^-12 (no square can be skipped)", rad, ctr)
 		cs := c07Case{Index: i, Dim: 2, Cells: n, Family: "weak-field-deep-tree", Shape: desc, TrisP: len(la), TrisU: len(lb), ScaleK: 12}
@@ -1097,6 +1125,12 @@ func c07WeakDeep(c *Ctx) {
 			missing += v
 		}
 		if missing+extra > 0 || len(la) == 0 {
+			if k := snap.Load(); k > 0 && len(la) > 0 && int64(missing+extra) <= 16*k {
+				// a node within 1e-12 * 2^12 = 4e-9 of the circle: the (at most 4 squares x 2 segments, either render) around it may differ
+				c.Count("cases_skipped_scaled_value_crossed_snap_epsilon", 1)
+				c.Obs(fmt.Sprintf("weakdeep2_%d_items_differing_next_to_snapped_nodes", n), map[string]any{"nodes": k, "items": missing + extra})
+				return
+			}
 			c.Violate("", fmt.Sprintf("quadtree-weak-deep cells=%d %s: %d segments from f, %d from the weaker field (%d only in the first, %d only in the second)", n, desc, len(la), len(lb), missing, extra), cs)
 			return
 		}
